@@ -520,7 +520,8 @@ def run_property(prop, tier, jobs, assumptions, level_text, keep=False, only=Non
     def work(i):
         job = jobs[i]
         rec = {"job": job.name(), "harness": job.harness, "entry": job.entry, "shape": dict(job.defs, **job.cdefs), "unwind": job.unwind,
-               "symbolic": job.sym, "outside": job.outside, "variant": job.variant}
+               "symbolic": job.sym, "outside": job.outside, "variant": job.variant,
+               "backend": "z3 via cbmc --z3 (SMT2, QF_AUFBV)" if "--z3" in job.extra else "minisat (cbmc default)"}
         records[i] = rec
         try:
             u = ctx.unit(job, sorted(entries_by_unit[job.unit_key()]))
@@ -831,14 +832,14 @@ def write_evidence(ctx, prop, tier, seed, jobs, records, violations, inconclusiv
         "writable_static_objects_in_module": static_objects,
         "library_static_storage": lib_statics,
         "static_write_assertions_instrumented": static_write_checks,
-        "queries": [{k: r.get(k) for k in ("job", "variant", "status", "wall_s", "variables", "clauses", "steps", "properties_proved", "properties_failed", "reach_witnesses",
+        "queries": [{k: r.get(k) for k in ("job", "variant", "backend", "status", "wall_s", "variables", "clauses", "steps", "properties_proved", "properties_failed", "reach_witnesses",
                                             "reached", "not_reached_optional", "properties_unknown_after_failure", "counterexamples", "unreplayed_failures", "error") if r.get(k) not in (None, [], "")} for r in recs],
         "bounds": sorted({"unwind=%s" % r.get("unwind") for r in recs}),
         "symbolic_inputs": sorted({r.get("symbolic") for r in recs if r.get("symbolic")}),
         "outside_the_claim": sorted({r.get("outside") for r in recs if r.get("outside")}),
         "inconclusive": [{"job": j.name(), "why": w[:400]} for j, w in inconclusive],
         "known_findings_hit": sorted({kf["id"] for kf, _, _ in known_hits}),
-        "pipeline": "clang++-14 -O1 IR of /repo working tree -> ll2c -> C -> goto-cc -> cbmc 6.11 (MiniSat), --unwinding-assertions",
+        "pipeline": "clang++-14 -O1 IR of /repo working tree -> ll2c -> C -> goto-cc -> cbmc 6.11 (MiniSat; Z3 4.8.12 through --z3 where a query says so), --unwinding-assertions",
         "explanation": level_text,
     }
     ev = {
